@@ -21,13 +21,13 @@ def clampPower (power csCurrent csMax csMin vehMin : α) : α :=
   else pymax (pymin power (csMax - csCurrent)) 0
 
 /-- cost description of a grid connector (`gc.cost`) -/
-inductive Cost (α : Type) where
+inductive GcCost (α : Type) where
   | fixed (value : α)
   | polynomial (coeffs : List α)
   deriving Repr
 
 /-- `util.get_cost(x, cost_dict)` -/
-def getCost (x : α) : Cost α → α
+def getCost (x : α) : GcCost α → α
   | .fixed v => v * x
   | .polynomial cs => (cs.foldl (fun (acc : α × α) c => (acc.1 + c * acc.2, acc.2 * x)) (0, 1)).1
 
